@@ -77,6 +77,15 @@ namespace lc {
 
   struct Translation { bool ok = false; std::string device, launcher; };
 
+  // occa prints expression-parser debug dumps ("---[ Scopes ]---") to io::stdout = std::cout on some syntax
+  // errors; they must not end up in the line protocol
+  struct CoutMute {
+    std::streambuf *old;
+    std::ostringstream sink;
+    CoutMute() { old = std::cout.rdbuf(sink.rdbuf()); }
+    ~CoutMute() { std::cout.rdbuf(old); }
+  };
+
   // One parser object per mode, reused (parseSource() clears it), as tests/src/internal/lang/modes do;
   // H_LOOPS_FRESH=1 builds a fresh parser per translation as the CLI and the kernel builder do
   // (3x slower; the corpus is run that way once per check).
@@ -91,6 +100,7 @@ namespace lc {
       if (!cache[mode]) cache[mode].reset(makeParser(mode));
       p = cache[mode].get();
     }
+    CoutMute mute;
     try {
       p->parseSource(okl);
       if (!p->succeeded()) return t;
